@@ -218,6 +218,9 @@ func (i Items) MarshalJSON() ([]byte, error) {
 
 // JSONLookup look up a value by the json property name
 func (i Items) JSONLookup(token string) (interface{}, error) {
+	if ex, ok := i.Extensions[token]; ok {
+		return &ex, nil
+	}
 	if token == jsonRef {
 		return &i.Ref, nil
 	}
